@@ -51,9 +51,14 @@ def _stable_hash(self):
     digits = "".join(ch for ch in ident if ch.isdigit())
     if digits and len(ident) <= 4:
         return int(digits)
-    import zlib
+    # objects created by pDESy itself (uuid IDs, e.g. the helper tasks of backward_simulate): numbered in order
+    # of first use, which is deterministic for a deterministic program
+    _AUTO[0] += 1
+    self._hprio = 1000 + _AUTO[0]
+    return self._hprio
 
-    return zlib.crc32(ident.encode()) & 0xFFFF
+
+_AUTO = [0]
 
 
 def install_hashes():
@@ -98,6 +103,7 @@ def build(spec, p, symbolic, hprio=None):
     from pDESy.model.base_priority_rule import ResourcePriorityRuleMode, WorkplacePriorityRuleMode
 
     TaskCls = task_class()
+    _AUTO[0] = 0
     M = Model()
     M.spec = spec
     tspecs = spec.get("tasks", [])
